@@ -1069,45 +1069,56 @@ def in_cycle(body, b):
 
 def vec_build(P, fn, v):
     """Decompose a Vec value that is built by mutation: returns (base value, [(op name, call value, in_loop)]) oldest first,
-    or None when the value is not a plain chain of &mut-consuming calls."""
-    ops = []
-    guard = 0
-    while guard < 60:
-        guard += 1
-        k = v[0]
-        if k == "phi":
-            muts = [x for x in v[1] if x[0] == "mut"]
-            rest = [x for x in v[1] if x[0] not in ("mut", "cycle")]
-            if len(muts) == 1 and len(rest) <= 1:
-                v = muts[0]
-                continue
-            if not muts and len(rest) == 1:
-                v = rest[0]
-                continue
+    or None when the value is not a plain chain of &mut-consuming calls. Alternatives of a phi must be prefixes of one
+    another (different path histories of the same vector)."""
+    def chain(v, depth=0):
+        if depth > 80:
             return None
+        k = v[0]
         if k == "mut":
-            f = P.fn(v[2])
-            if f is None:
+            r = chain(v[1], depth + 1)
+            if r is None:
                 return None
-            cons = borrow_consumer(P, f, v[3], v[4])
-            if cons is None or cons[1] is None:
+            return r[0], r[1] + [(v[2], v[3], v[4])]
+        if k == "phi":
+            cs = []
+            for x in v[1]:
+                if x[0] in ("cycle", "uninit"):
+                    continue
+                c = chain(x, depth + 1)
+                if c is None:
+                    return None
+                cs.append(c)
+            if not cs:
                 return None
-            cv = P.val_call(f, f.body, cons[0])
-            # through deref_mut
-            if last_seg(cons[1]) in ("deref_mut", "as_mut_slice", "as_mut"):
-                return None
-            ops.append((last_seg(cons[1]), cv, in_cycle(f.body, cons[0])))
-            v = v[1]
-            continue
+            longest = max(cs, key=lambda c: len(c[1]))
+            for c in cs:
+                it = iter(longest[1])
+                if not all(s in it for s in c[1]):
+                    return None
+                if c[0] != longest[0]:
+                    return None
+            return longest
         if k == "call" and isinstance(v[3], str) and (is_try_branch(v[3]) or transparent_arg(v[3]) == 0) and last_seg(v[3]) not in ("new", "with_capacity", "collect", "to_vec"):
-            v = v[4][0]
-            continue
-        if k == "proj" and v[2][0] in ("v",) or (k == "proj" and v[2] == ("f", 0)):
-            v = v[1]
-            continue
-        break
-    ops.reverse()
-    return v, ops
+            return chain(v[4][0], depth + 1)
+        if k == "proj" and (v[2][0] == "v" or v[2] == ("f", 0)):
+            return chain(v[1], depth + 1)
+        return v, []
+    r = chain(v)
+    if r is None:
+        return None
+    base, sites = r
+    ops = []
+    for (fp, b, i) in sites:
+        f = P.fn(fp)
+        if f is None:
+            return None
+        cons = borrow_consumer(P, f, b, i)
+        if cons is None or cons[1] is None or last_seg(cons[1]) in ("deref_mut", "as_mut_slice", "as_mut"):
+            return None
+        cv = P.val_call(f, f.body, cons[0])
+        ops.append((last_seg(cons[1]), cv, in_cycle(f.body, cons[0])))
+    return base, ops
 
 
 def is_empty_vec_base(v):
